@@ -70,17 +70,10 @@ def judge(ctx, sc, run):
     if has_d:
         ctx.count("datums:%d" % min(len(tv.datum_hashes), 4))
     if got != exp:
-        fid = None
-        if 0 in langs and len(langs) >= 2:
-            # the narrow predicate of KF-C12-views-order: PlutusV1 together with a later version AND the hash is exactly
-            # the one over the same shipped bytes with the views ordered by language id instead of canonically
-            alt = LV.script_data_hash(tv.red_bytes, tv.datum_bytes, LV.language_views_ascending_ids(langs, tables))
-            if got == alt:
-                fid = "KF-C12-views-order"
         ctx.violation("script data hash differs from BLAKE2b-256(redeemer bytes ‖ datum bytes ‖ canonical language views) "
                       "recomputed from the shipped witness-set bytes", sc,
                       {"hash": exp.hex(), "redeemers": (tv.red_bytes or b"\xa0").hex(), "datums": (tv.datum_bytes or b"").hex(),
-                       "views": views.hex()}, got.hex(), finding=fid)
+                       "views": views.hex()}, got.hex())
     # units in the shipped redeemers are the final ones (evaluated + buffered when estimating)
     if x["estimate"] and has_r:
         for key, lst in tv.redeemers.items():
@@ -160,11 +153,7 @@ def check_views(ctx, rng):
     ref = LV.language_views(langs, tables)
     ctx.count("views:langs=" + ",".join(str(l) for l in sorted(langs)))
     if impl != ref:
-        fid = None
-        if 0 in langs and len(langs) >= 2 and impl == LV.language_views_ascending_ids(langs, tables):
-            fid = "KF-C12-views-order"
-        ctx.violation("CostModels encodes to something other than the canonical language views", case, ref.hex(), impl.hex(),
-                      finding=fid)
+        ctx.violation("CostModels encodes to something other than the canonical language views", case, ref.hex(), impl.hex())
     if ctx.have_driver():
         m = ctx.driver().ok({"op": "views", "langs": [str(l) for l in langs],
                              "cost_models": [[str(l), [[n.encode().hex(), str(v)] for n, v in tables[l].items()]] for l in langs]})
@@ -178,7 +167,7 @@ def corpus():
     import random
     out = []
     forces = [
-        # the recorded defect: PlutusV1 together with V2 / V3
+        # PlutusV1 together with V2 / V3 (the repaired defect FX KF-C12-views-order: a regression is a plain violation)
         {"n_si": 2, "n_key": 1, "n_mint": 2, "n_wd": 0, "n_cert": 0, "versions": [1, 2], "cm_mode": "default"},
         {"n_si": 3, "n_key": 0, "n_mint": 2, "n_wd": 1, "n_cert": 1, "versions": [1, 2, 3], "cm_mode": "tables", "estimate": True},
         # evaluated units, list form, several datums
@@ -190,11 +179,32 @@ def corpus():
         {"n_si": 0, "n_key": 2, "n_mint": 0, "n_wd": 0, "n_cert": 0, "out_datum": False},
         {"n_si": 2, "n_key": 1, "n_mint": 1, "n_wd": 1, "n_cert": 1, "versions": [1], "cm_mode": "missing"},
     ]
+    out.append(V1_WITH_V2)
     for i, f in enumerate(forces):
         for j in range(2):
             out.append(P.gen(random.Random(f"c12-corpus/{i}/{j}"), force=f))
     out.append(NATIVE_REF_ONLY)
     return out
+
+
+# regression witness of the repaired KF-C12-views-order: a PlutusV1 script input and a PlutusV2 minting policy in one
+# transaction (the views must come out as {01: …, 4100: …})
+V1_WITH_V2 = {
+    "slot": 5000,
+    "utxos": [{"id": "s0", "txid": "5c" + "11" * 31, "ix": 0, "addr": ["script", "p1:a"], "coin": 5000000},
+              {"id": "w0", "txid": "ff" + "33" * 31, "ix": 0, "addr": "k0", "coin": 60000000}],
+    "address_utxos": {"k0": ["w0"]},
+    "ops": [{"op": "x_script_input", "u": "s0", "script": "p1:a", "script_in": "witness", "datum": 42, "datum_mode": "hash",
+             "redeemer": {"data": 7000001, "units": [1000, 2000]}},
+            {"op": "x_minting_script", "script": "p2:m", "redeemer": {"data": 7000002, "units": [1000, 2000]}},
+            {"op": "mint", "assets": [["p2:m", "61", 1]]},
+            {"op": "add_input", "u": "w0"}, {"op": "add_output", "addr": "k1", "coin": 3000000}],
+    "build": {"change": "k0", "selectors": [["largest"]], "pyseed": 1}, "sign": ["k0"],
+    "x": {"attach": [{"kind": "spend", "u": "s0", "script": "p1:a", "raw": False, "loc": "witness", "native": False,
+                      "datum_mode": "hash", "marker": 7000001},
+                     {"kind": "mint", "script": "p2:m", "raw": False, "loc": "witness", "native": False, "marker": 7000002}],
+          "estimate": False, "use_list": False, "versions": [1, 2], "cm_mode": "default", "mixed_wd": False},
+}
 
 
 # a native script input whose script sits on a reference UTxO: scripts are involved, but there are neither redeemers
@@ -249,8 +259,6 @@ def replay(ctx, data):
             impl = cbor2.dumps(CostModels({l: dict(tables[l]) for l in langs}), default=default_encoder)
             ref = LV.language_views(langs, tables)
             if impl != ref:
-                fid = "KF-C12-views-order" if (0 in langs and len(langs) >= 2
-                                               and impl == LV.language_views_ascending_ids(langs, tables)) else None
                 ctx.violation("CostModels encodes to something other than the canonical language views", c, ref.hex(),
-                              impl.hex(), finding=fid)
+                              impl.hex())
             ctx.case(c)
